@@ -76,6 +76,14 @@ func init() {
 			t.EditByPath([]int{n}, []int{n}, pnode(v), 0)
 		}
 	})
+	// split the first element after its first character (Edit with splitLevel 1):
+	// not structure-preserving (C19's domain), used where a snapshot has to carry
+	// the link between the two halves
+	reg("tr.splitP0", func(r *json.Object, _ *document.Presence, v int) {
+		if t := tree(r); t != nil && len(tkids(t)) > 0 && tkids(t)[0].Len() >= 2 {
+			t.EditByPath([]int{0, 1}, []int{0, 1}, nil, 1)
+		}
+	})
 	reg("tr.delP0", func(r *json.Object, _ *document.Presence, v int) {
 		if t := tree(r); t != nil && len(tkids(t)) > 0 {
 			t.EditByPath([]int{0}, []int{1}, nil, 0)
@@ -95,6 +103,11 @@ func init() {
 	reg("tr.sty0", func(r *json.Object, _ *document.Presence, v int) {
 		if t := tree(r); t != nil && len(tkids(t)) > 0 {
 			t.StyleByPath([]int{0}, []int{1}, map[string]string{"b": fmt.Sprint(v)})
+		}
+	})
+	reg("tr.sty0x", func(r *json.Object, _ *document.Presence, v int) {
+		if t := tree(r); t != nil && len(tkids(t)) > 0 {
+			t.StyleByPath([]int{0}, []int{1}, map[string]string{"b": "same"})
 		}
 	})
 	reg("tr.styAll", func(r *json.Object, _ *document.Presence, v int) {
